@@ -300,6 +300,13 @@ class Gen:
                 body.append('  %s ("%s.r", %s); %s ("%s.c", %s);' % (P, tag, rt, P, tag, ct))
                 expect[tag + ".r"] = v
                 expect[tag + ".c"] = v
+                if e[0] == "cmp":       # the same comparison as a branch condition (compare-and-branch insns)
+                    body.append('  if (%s) PS ("%s.b", 1); else PS ("%s.b", 0);' % (rt[1:-1], tag, tag))
+                    body.append('  PS ("%s.q", %s ? 7 : 9); { int n_ = 0; while (%s) { if (++n_ > 2) break; } PS ("%s.w", n_); }'
+                                % (tag, rt[1:-1], rt[1:-1], tag))
+                    expect[tag + ".b"] = v
+                    expect[tag + ".q"] = 7 if v else 9
+                    expect[tag + ".w"] = 3 if v else 0
                 lean.append((tag + ".c", to_lean(e), t, v))
                 pair = {promote(t1), promote(t2)}
                 if e[0] in ("bin", "cond") and not (("ulong" in pair and "llong" in pair)):
@@ -516,20 +523,23 @@ class Gen:
         if tr[0] == "u":
             m, sub = mems[0]
             return ("{ .%s = %s }" if r.chance(1, 2) else "{ %.0s%s }") % (m, self.agg_init(sub, override))
-        items, i = [], 0
+        items, i, done = [], 0, set()
         while i < len(mems):
             c = r.below(15)
             if c < 5:
                 j = r.below(len(mems)) if override else i + r.below(len(mems) - i)
                 if j < i and mems[j][1][0] != "i":      # re-initialising a whole aggregate member: semantics debated (DR 413)
                     j = i
-                items.append(".%s = %s" % (mems[j][0], self.agg_init(mems[j][1], override))); i = j + 1
+                if j in done and mems[j][1][0] != "i": break
+                items.append(".%s = %s" % (mems[j][0], self.agg_init(mems[j][1], override))); done.add(j); i = j + 1
             elif c < 7:
                 i += 1      # leave member i zero
                 if i < len(mems):
-                    items.append(".%s = %s" % (mems[i][0], self.agg_init(mems[i][1], override))); i += 1
+                    if i in done and mems[i][1][0] != "i": break
+                    items.append(".%s = %s" % (mems[i][0], self.agg_init(mems[i][1], override))); done.add(i); i += 1
             else:
-                items.append(self.agg_init(mems[i][1], override)); i += 1
+                if i in done and mems[i][1][0] != "i": break
+                items.append(self.agg_init(mems[i][1], override)); done.add(i); i += 1
         return "{ %s }" % ", ".join(items) if items else "{ 0 }"
 
     def agg_print(self, tr, path, tag, out):
